@@ -12,7 +12,8 @@ from ..cref import show, operands_closure, CParseError
 from ..il import reader, static
 from ..il.interp import ILError
 
-FEATURES = gen.SAFE_CORE | {"hyb_inc", "hyb_call", "hyb_stmtexpr", "pred", "narrow", "jump", "alias", "explicit", "new"}
+FEATURES = gen.SAFE_CORE | {"hyb_inc", "hyb_call", "hyb_stmtexpr", "pred", "narrow", "jump", "alias", "explicit", "new",
+                             "compound_assign_narrow", "unbraced", "chain_assign", "macro", "div"}
 
 _n = [0]
 
@@ -123,6 +124,36 @@ def worker(names, nprog, nstates, seed):
     return p.d
 
 
+DEAD_LOADS = ["{ EA = RsV; RdV = (0 ? mem_load_s32(EA) : RtV); }", "{ RdV = (1 ? RtV : mem_load_u8(RsV)); }",
+              "{ RdV = ((2 < 1) ? mem_load_s16(RsV) : 5); }", "{ RdV = (0 ? RsV : RtV); mem_store_u8(RsV, 0 ? RtV : 1); }",
+              "{ if (0 ? mem_load_u32(RsV) : RtV) { RdV = 1; } }", "{ RdV = 1 ? 2 : clz32(mem_load_u32(RsV)); }",
+              "{ RdV = 0 ? (P0 = 1) : 2; }", "{ RdV = 1 ? RsV : PuN; }", "{ RdV = 0 ? RsN : RtV; }",
+              "{ if (1 ? 0 : PuV) { JUMP(riV); } }", "{ RdV = (1 ? RsV : 0); if (0 ? 1 : 0) { mem_store_u32(RsV, RtV); } }"]
+NARROW_COMPOUND = [f"{{ {t} a = RsV; a {op} RtV; RdV = a; }}" for t in ("int8_t", "uint8_t", "int16_t", "uint16_t")
+                   for op in ("+=", "-=", "*=", "<<=", ">>=", "/=", "%=", "&=", "|=", "^=")] + \
+                  ["{ int32_t a = RsV; a /= RssV; RdV = a; }", "{ int32_t a = RsV; a %= RssV; RdV = a; }", "{ PdV = RsV; PdV += 1; }"]
+
+
+def template_worker(texts, nstates, seed):
+    p = run.Part()
+    cs = {f: boot.compiler(f) for f in ("stmt", "exec")}
+    resolvers = {f: diff.make_resolver(c) for f, c in cs.items()}
+    subinfo = staticrun.SubInfo()
+    subs = diff.bundled_subs()
+    for i, t in enumerate(texts):
+        compare_subject(p, cs, resolvers, subinfo, f"TPL_c16_{run.h64(t) % 10**8}", [t], nstates, seed, subs)
+    return p.d
+
+
+def templates(tier):
+    from . import c09, c15, static_common
+    t = DEAD_LOADS + NARROW_COMPOUND + list(c09.DEAD_ARM_TEMPLATES) + list(c09.CONST_COND_TEMPLATES) + list(c15.TEMPLATES) + \
+        static_common.bool_consumer_templates()
+    if tier == "thorough":
+        t += static_common.context_templates()
+    return t
+
+
 def run_check(ctx):
     ctx.rule = ("accepted corpus parts (thorough: all; quick: 130 stratified) and Hypothesis programs (branches, loops, hybrids), each "
                 "compiled in both CodeFormat layouts and executed by the RzIL interpreter on the same generated states; non-trivial = "
@@ -135,6 +166,9 @@ def run_check(ctx):
     else:
         sel, nprog, ns = diff.stratified_sample(names, 130, ctx.seed), 320, 5
     shards = 16
+    tt = templates(ctx.tier)
+    ctx.extra["templates"] = len(tt)
+    run.run_sharded(ctx, template_worker, [(tt[i::shards], 3, run.sub_seed(ctx.seed, "c16t", i)) for i in range(shards)])
     run.run_sharded(ctx, worker, [(sel[i::shards], nprog // shards, ns, run.sub_seed(ctx.seed, "c16", i)) for i in range(shards)])
 
 
